@@ -401,7 +401,10 @@ def inline_stmts(callee, call, recv=None):
             return None
         ren[callee.args.args[0].arg] = recv.id
     body = copy.deepcopy(_callee_body(callee))
-    stored = _stored(body)
+    # a parameter that the callee only edits IN PLACE (p[i] = .., p.append(..)) is the caller's object under another name: it is
+    # renamed to the argument, so that the edits are seen on the caller's variable; only a parameter the callee re-binds needs a
+    # local of its own
+    stored = {n.id for b in body for n in ast.walk(b) if isinstance(n, ast.Name) and isinstance(n.ctx, (ast.Store, ast.Del))}
     for p, e in given.items():
         if isinstance(e, ast.Name) and p not in stored:
             ren[p] = e.id
